@@ -251,10 +251,16 @@ def check_name(kind, o, name, excl, ignore=False):
     return None
 
 
-def e2e_roundtrip(ctx, names, kind_out, opts, second=None):
+FORMS = {"int": {"type": "integer"}, "true": True, "empty": {}, "ref": {"$ref": "#/definitions/IntDef"}, "nullable": {"type": ["integer", "null"]},
+         "union": {"anyOf": [{"type": "integer"}, {"type": "string"}]}}
+
+
+def e2e_roundtrip(ctx, names, kind_out, opts, second=None, forms=None):
     """Schema with the given property names -> generate -> exec -> validate -> dump by alias.
-    `second`: property names of a nested object (a second class in the same run)."""
-    schema = {"type": "object", "title": "M", "properties": {n: {"type": "integer"} for n in names}}
+    `second`: property names of a nested object (a second class in the same run); `forms`: how each member of the
+    outer object is declared (integer schema by default; boolean schema, empty schema, $ref, nullable, union)."""
+    schema = {"type": "object", "title": "M", "properties": {n: FORMS[(forms or {}).get(n, "int")] for n in names},
+              "definitions": {"IntDef": {"type": "integer"}}}
     data = {n: i for i, n in enumerate(names)}
     if second:
         schema["properties"]["zz_inner"] = {"type": "object", "title": "Inner", "properties": {n: {"type": "integer"} for n in second}}
@@ -344,19 +350,38 @@ def falsify(ctx):
         if why:
             ctx.violation(f"e2e:{kind_out}:{names!r}:{second!r}:{opts}", f"property names {names!r} / inner {second!r} ({kind_out}, {opts}): {why}",
                           {"names": names, "second": second, "kind": kind_out, "opts": opts, "why": why})
+    # names that coincide after sanitation x how each of the two members is declared x both orders
+    pairs = [("a-b", "a_b"), ("x y", "x_y"), ("class", "class_"), ("1a", "field_1a"), ("copy", "copy_"), ("A", "a"), ("a.b", "a_b")]
+    fams = []
+    for p1, p2 in pairs:
+        for f1 in FORMS:
+            for f2 in ("int", "true", "ref"):
+                for order in ((p1, p2), (p2, p1)):
+                    fams.append((list(order) + ["plain"], {order[0]: f1, order[1]: f2}))
+    if not ctx.thorough:
+        fams = [f for i, f in enumerate(fams) if f[1][f[0][0]] in ("true", "empty", "ref") or i % 3 == 0]
+    for i, (names, forms) in enumerate(fams):
+        for kind_out in (["pydantic_v2.BaseModel", "pydantic.BaseModel"] if ctx.thorough else [["pydantic_v2.BaseModel", "pydantic.BaseModel"][i % 2]]):
+            opts = {"snake_case_field": True} if names[0] in ("A", "a") else {}
+            ctx.count("eval_e2e")
+            ctx.nontrivial(("collide", tuple(names), json.dumps(forms, sort_keys=True), kind_out))
+            why = e2e_roundtrip(ctx, names, kind_out, opts, None, forms)
+            if why:
+                ctx.violation(f"e2e:{kind_out}:{names!r}:{json.dumps(forms, sort_keys=True)}:{opts}", f"property names {names!r} declared as {forms} ({kind_out}, {opts}): {why}",
+                              {"names": names, "second": None, "forms": forms, "kind": kind_out, "opts": opts, "why": why})
 
 
 def replay_finding(ctx, f):
     r = f["replay"]
     if "names" in r:
-        return e2e_roundtrip(ctx, r["names"], r["kind"], r["opts"], r.get("second")) is not None
+        return e2e_roundtrip(ctx, r["names"], r["kind"], r["opts"], r.get("second"), r.get("forms")) is not None
     return check_name(r["kind"], r["opts"], r["name"], r.get("excludes")) is not None
 
 
 def replay(ctx, payload):
     r = payload.get("replay", payload)
     if "names" in r:
-        why = e2e_roundtrip(ctx, r["names"], r["kind"], r["opts"], r.get("second"))
+        why = e2e_roundtrip(ctx, r["names"], r["kind"], r["opts"], r.get("second"), r.get("forms"))
     elif "name" in r:
         why = check_name(r["kind"], r["opts"], r["name"], r.get("excludes"))
     else:
